@@ -1,7 +1,7 @@
 (* C17 -- which bins belong to a segment, as the property text says it: the bins
    OVERLAPPING the segment (segmetrics), the bins lying INSIDE it (bintest residuals);
    and the preconditions on the two tables (those of C07). *)
-From CNV Require Import Base.Prelude Model.Ranges Model.Segmetrics Spec.RangeQuery.
+From CNV Require Import Base.Prelude Model.Ranges Model.Segmetrics Spec.RangeQuery Spec.Stats17.
 
 (* same chromosome and at least one base in common *)
 Definition seg_overlaps (s : seg) (b : bin) : bool :=
@@ -25,3 +25,57 @@ Definition contained_bins (tb : list tbin) (s : seg) : list tbin :=
    empty, repeated, overlapping, on chromosomes the bin table lacks. *)
 Definition bins_ok (bins : list bin) : Prop := table_ok (map bin_trow (tagged bins)).
 Definition segs_ok (segs : list seg) : Prop := grouped (map seg_trow segs).
+
+(* ==== the bootstrap confidence interval, stated against plain arithmetic ================= *)
+Local Open Scope Q_scope.
+
+(* the oracle contract of np.random.randint(0, k, size=(rows, cols)) *)
+Definition randint_contract (f : Z -> nat -> nat -> nat -> list (list nat)) : Prop :=
+  forall s k rows cols,
+    length (f s k rows cols) = rows /\
+    Forall (fun r => length r = cols /\ Forall (fun i => (i < k)%nat) r) (f s k rows cols).
+(* ... and of the [rows] vectors np.random.randn(cols) *)
+Definition randn_contract (f : Z -> nat -> nat -> nat -> list (list Q)) : Prop :=
+  forall s k rows cols,
+    length (f s k rows cols) = rows /\ Forall (fun r => length r = cols) (f s k rows cols).
+
+(* textbook weighted mean *)
+Definition wmean_def (a w : list Q) : Q := sumQ (map2 Qmult a w) / sumQ w.
+
+(* the smoothing formula: element c of resample r is  v_i + bw * sqrt(1 - w_i) * z_rc ,
+   i the bin drawn at (r, c), bw = the bandwidth oracle at k, z the normal draws; the weights
+   of the weighted mean are the un-smoothed w_i *)
+Definition smoothed_sample (sqrtf : Q -> Q) (bw : Q) (vals wts : list Q) (idx : list nat) (z : list Q) : list Q :=
+  map2 (fun i zz => nth i vals 0 + bw * sqrtf (1 - nth i wts 0) * zz) idx z.
+
+(* ==== the statistic columns of the output table ========================================== *)
+(* the column names a configuration asks for, in the order the code assigns them *)
+Definition is_loc_name (nm : string) : bool :=
+  String.eqb nm "mean" || String.eqb nm "median" || String.eqb nm "mode" || String.eqb nm "p_ttest".
+Definition is_spread_name (nm : string) : bool :=
+  String.eqb nm "stdev" || String.eqb nm "mad" || String.eqb nm "mse" || String.eqb nm "iqr" ||
+  String.eqb nm "bivar" || String.eqb nm "sem".
+Definition requested_columns (cfg : config) : list string :=
+  filter is_loc_name (c_loc cfg) ++ filter is_spread_name (c_spread cfg) ++
+  (if has "ci" (c_ivl cfg) then ["ci_lo"; "ci_hi"]%string else []) ++
+  (if has "pi" (c_ivl cfg) then ["pi_lo"; "pi_hi"]%string else []).
+
+(* a name is entered once, at its first assignment *)
+Fixpoint add_name (nm : string) (l : list string) : list string :=
+  match l with
+  | [] => [nm]
+  | c :: t => if String.eqb c nm then c :: t else c :: add_name nm t
+  end.
+Definition first_occurrences (names : list string) : list string :=
+  fold_left (fun acc n => add_name n acc) names [].
+
+(* the usual call: known, distinct names in each family *)
+Definition names_ok (cfg : config) : Prop :=
+  NoDup (c_loc cfg) /\ NoDup (c_spread cfg) /\
+  (forall n, In n (c_loc cfg) -> is_loc_name n = true) /\
+  (forall n, In n (c_spread cfg) -> is_spread_name n = true).
+
+(* ==== the t-test column ================================================================== *)
+(* contract of the Student-t tail oracle: a function of (t^2, df) as numbers, 1 at t = 0 *)
+Definition tt_contract (tt : Q -> nat -> Q) : Prop :=
+  (forall t t' n, t == t' -> tt t n == tt t' n) /\ (forall n, tt 0 n == 1).
